@@ -191,9 +191,13 @@ func runCase(c caseSpec) (fs []finding) {
 
 // pool runs body(i) for i in [0,n) on all cores; every worker owns a context made by newCtx.
 func pool(n int64, newCtx func() interface{}, body func(ctx interface{}, i int64) interface{}, endCtx func(interface{})) (done int64) {
+	return poolN(par.Workers(), n, newCtx, body, endCtx)
+}
+
+func poolN(workers int, n int64, newCtx func() interface{}, body func(ctx interface{}, i int64) interface{}, endCtx func(interface{})) (done int64) {
 	var next int64
 	var wg sync.WaitGroup
-	for w := 0; w < par.Workers(); w++ {
+	for w := 0; w < workers; w++ {
 		wg.Add(1)
 		go func() {
 			defer wg.Done()
@@ -675,6 +679,20 @@ func replayIlv(sp ilvSpec) (fs []finding) {
 
 func phaseInterleave() {
 	t0 := time.Now()
+	{
+		buf := make([]byte, 64<<20)
+		n := runtime.Stack(buf, true)
+		fmt.Fprintf(os.Stderr, "c20: goroutines at start of the interleaving phase: %d, dump %d bytes\n", runtime.NumGoroutine(), n)
+		if os.Getenv("VERIF_C20_DUMP") != "" {
+			os.WriteFile(os.Getenv("VERIF_C20_DUMP"), buf[:n], 0o644)
+		}
+	}
+	procs := 1
+	if v, err := strconv.Atoi(os.Getenv("VERIF_C20_ILV_PROCS")); err == nil && v > 0 {
+		procs = v
+	}
+	old := runtime.GOMAXPROCS(procs)
+	defer runtime.GOMAXPROCS(old)
 	bound := 2
 	specs := ilvScenarios(2, ilvSizes)
 	if r.Thorough() {
@@ -709,7 +727,7 @@ func phaseInterleave() {
 		specs[i].Bound = bound
 	}
 	r.Set("ilv_preemption_bound", bound)
-	done := pool(int64(len(specs)), freshPair, func(ctx interface{}, i int64) interface{} {
+	done := poolN(procs, int64(len(specs)), freshPair, func(ctx interface{}, i int64) interface{} {
 		pr, _ := ctx.(*pair)
 		sp := specs[i]
 		orders := map[string]bool{}
@@ -733,6 +751,7 @@ func phaseInterleave() {
 			r.Add("ilv_choice_points", int64(obs.points))
 			run := obs.run
 			r.Add("ilv_goroutine_state_snapshots", int64(run.polls))
+			r.Add("ilv_goroutine_state_snapshot_ns", run.pollNs)
 			r.Add("ilv_quiescent_points_with_a_writer_blocked_in_the_code_under_test", int64(run.blockedSeen))
 			r.Max("ilv_max_preemptions_in_one_execution", int64(run.preemptions))
 			if run.startedWhileOtherInside > 0 {
